@@ -86,19 +86,21 @@ theorem checked_quiet (n : Int) : Skippable (checked n) ∨ ∃ a, checked n = .
   · exact Or.inr ⟨_, rfl⟩
   · exact Or.inl trivial
 
+theorem intOp_quiet (op : String) (a b : Int) :
+    Skippable (intOp op a b) ∨ ∃ v, intOp op a b = .ok v := by
+  unfold intOp
+  repeat' split
+  all_goals first
+    | exact checked_quiet _
+    | exact Or.inl trivial
+    | exact Or.inr ⟨_, rfl⟩
+
 /-- Every builtin is a function of its arguments whose only failures are skippable. -/
 theorem builtin_quiet (op : String) (vs : List Value) :
     Skippable (builtin op vs) ∨ ∃ a, builtin op vs = .ok a := by
   unfold builtin
   split
-  · exact checked_quiet _
-  · exact checked_quiet _
-  · exact checked_quiet _
-  · split
-    · exact Or.inl trivial
-    · exact checked_quiet _
-  · exact Or.inr ⟨_, rfl⟩
-  · exact Or.inr ⟨_, rfl⟩
+  · exact intOp_quiet _ _ _
   · exact Or.inl trivial
 
 theorem builtinCallee_some {f : Expr} {b : String} (h : builtinCallee f = some b) :
@@ -112,70 +114,66 @@ theorem builtinCallee_some {f : Expr} {b : String} (h : builtinCallee f = some b
 /-! ### Call-free expressions are quiet -/
 
 mutual
-theorem pure_quiet (call : Caller) : ∀ (e : Expr), pureE e = true → noRec e = true →
+theorem pure_quiet (call : Caller) : ∀ (e : Expr), pureE e = true →
     ∀ env, Quiet (eval call env e)
-  | .const l, _, _, env => by simp only [eval]; exact quiet_pure _
-  | .ident x, _, _, env => by simp only [eval]; exact quiet_pure _
-  | .call f args, hp, hn, env => by
+  | .const l, _, env => by simp only [eval]; exact quiet_pure _
+  | .ident x, _, env => by simp only [eval]; exact quiet_pure _
+  | .call f args, hp, env => by
     simp only [pureE, Bool.and_eq_true, Option.isSome_iff_exists] at hp
-    simp only [noRec, Bool.and_eq_true] at hn
     obtain ⟨⟨b, hb⟩, hpa⟩ := hp
     obtain ⟨hf, hbn⟩ := builtinCallee_some hb
     subst hf
     simp only [eval, pure_bind]
-    apply bind_quiet _ _ (pure_quietList call args hpa hn.2 env)
+    apply bind_quiet _ _ (pure_quietList call args hpa env)
     intro vs
     simp only [identV, hbn, if_true, applyV]
     exact ⟨rfl, builtin_quiet _ _⟩
-  | .data c rows args, hp, hn, env => by
+  | .data c rows args, hp, env => by
     simp only [pureE] at hp
-    simp only [noRec] at hn
     simp only [eval]
-    apply bind_quiet _ _ (pure_quietList call args hp hn env)
+    apply bind_quiet _ _ (pure_quietList call args hp env)
     intro vs
     exact quiet_pure _
-  | .letE x e body, hp, hn, env => by
+  | .letE x e body, hp, env => by
     simp only [pureE, Bool.and_eq_true] at hp
-    simp only [noRec, Bool.and_eq_true] at hn
     simp only [eval]
-    apply bind_quiet _ _ (pure_quiet call e hp.1 hn.1 env)
+    apply bind_quiet _ _ (pure_quiet call e hp.1 env)
     intro v
-    exact pure_quiet call body hp.2 hn.2 _
-  | .letRec cs body, _, hn, env => by simp [noRec] at hn
-  | .matchE s alts, hp, hn, env => by
-    simp only [pureE, Bool.and_eq_true] at hp
-    simp only [noRec, Bool.and_eq_true] at hn
-    simp only [eval]
-    apply bind_quiet _ _ (pure_quiet call s hp.1 hn.1 env)
-    intro v
-    exact pure_quietAlts call alts hp.2 hn.2 v env
-  | .cast e, hp, hn, env => by
+    exact pure_quiet call body hp.2 _
+  | .letRec cs body, hp, env => by
     simp only [pureE] at hp
-    simp only [noRec] at hn
     simp only [eval]
-    exact pure_quiet call e hp hn env
-theorem pure_quietList (call : Caller) : ∀ (es : Exprs), pureList es = true → noRecList es = true →
+    exact pure_quiet call body hp _
+  | .matchE s alts, hp, env => by
+    simp only [pureE, Bool.and_eq_true] at hp
+    simp only [eval]
+    apply bind_quiet _ _ (pure_quiet call s hp.1 env)
+    intro v
+    exact pure_quietAlts call alts hp.2 v env
+  | .cast e, hp, env => by
+    simp only [pureE] at hp
+    simp only [eval]
+    exact pure_quiet call e hp env
+theorem pure_quietList (call : Caller) : ∀ (es : Exprs), pureList es = true →
     ∀ env, Quiet (evalList call env es)
-  | .nil, _, _, env => by simp only [evalList]; exact quiet_pure _
-  | .cons e es, hp, hn, env => by
+  | .nil, _, env => by simp only [evalList]; exact quiet_pure _
+  | .cons e es, hp, env => by
     simp only [pureList, Bool.and_eq_true] at hp
-    simp only [noRecList, Bool.and_eq_true] at hn
     simp only [evalList]
-    apply bind_quiet _ _ (pure_quiet call e hp.1 hn.1 env)
+    apply bind_quiet _ _ (pure_quiet call e hp.1 env)
     intro v
-    apply bind_quiet _ _ (pure_quietList call es hp.2 hn.2 env)
+    apply bind_quiet _ _ (pure_quietList call es hp.2 env)
     intro vs
     exact quiet_pure _
-theorem pure_quietAlts (call : Caller) : ∀ (alts : Alts), pureAlts alts = true → noRecAlts alts = true →
+theorem pure_quietAlts (call : Caller) : ∀ (alts : Alts), pureAlts alts = true →
     ∀ v env, Quiet (evalAlts call env v alts)
-  | .nil, _, _, v, env => by simp only [evalAlts]; exact ⟨rfl, Or.inl trivial⟩
-  | .cons p e rest, hp, hn, v, env => by
+  | .nil, _, v, env => by simp only [evalAlts]; exact ⟨rfl, Or.inl trivial⟩
+  | .cons p e rest, hp, v, env => by
     simp only [pureAlts, Bool.and_eq_true] at hp
-    simp only [noRecAlts, Bool.and_eq_true] at hn
     simp only [evalAlts]
     split
-    · exact pure_quiet call e hp.1 hn.1 _
-    · exact pure_quietAlts call rest hp.2 hn.2 v env
+    · exact pure_quiet call e hp.1 _
+    · exact pure_quietAlts call rest hp.2 v env
 end
 
 /-! ### Environments -/
@@ -319,7 +317,7 @@ theorem dce_sound (used : String → Bool) (call : Caller) : ∀ (e : Expr),
     · have hx' : used x = false := by simpa using hx
       simp only [hx', Bool.false_eq_true, if_false] at hk
       simp only [dce, hx', Bool.false_eq_true, if_false, eval]
-      obtain ⟨hl, ho⟩ := pure_quiet call e hk.1 hn.1 env
+      obtain ⟨hl, ho⟩ := pure_quiet call e hk.1 env
       rcases ho with hs | ⟨v, hv⟩
       · right
         obtain ⟨h1, h2⟩ := bind_skippable (eval call env e)
@@ -344,7 +342,7 @@ theorem dce_sound (used : String → Bool) (call : Caller) : ∀ (e : Expr),
       subst hshape
       simp only [dce, hd, if_true, dceFirstBody, eval]
       simp only [FirstSound] at hfirst
-      obtain ⟨hl, ho⟩ := pure_quiet call s hk.1 hn.1 env
+      obtain ⟨hl, ho⟩ := pure_quiet call s hk.1 env
       rcases ho with hs | ⟨v, hv⟩
       · right
         obtain ⟨h1, h2⟩ := bind_skippable (eval call env s)
